@@ -20,6 +20,8 @@ SOURCES = [
     ['dict', [['a', 1]], 'pickle'],
 ]
 EXCS = ['FilterException', 'SubFilter', 'ValueError', 'KeyError', 'IndexError']
+# classes the library itself uses for control flow: a user function may raise them as well
+EXCS_INTERNAL = ['NotImplementedError', 'TypeError', 'AssertionError', 'RuntimeError', 'AttributeError']
 BETWEEN = [
     ['map', 'add10'],
     ['slice', [1, None, None]],
@@ -240,7 +242,8 @@ def items_signal():
 def run(tier):
     res = common.Result()
     depth = 2 if tier == 'quick' else 3
-    tasks = [(s, e, depth) for s in SOURCES for e in EXCS]
+    tasks = [(s, e, depth) for s in SOURCES for e in EXCS] + \
+        [(s, e, max(1, depth - 1)) for s in SOURCES[:2] for e in EXCS_INTERNAL]
     total = collections.Counter()
     samples = []
     for st, viols, smp in common.pmap(_task, tasks):
